@@ -13,7 +13,12 @@ def neutral_type(rng, depth=1):
         return G.P(rng.choice(NEUTRAL_PRIMS))
     c = rng.random()
     if c < 0.3:
-        return ("seq", rng.choice(["vec", "ll"]), 0, neutral_type(rng, depth - 1))
+        e = neutral_type(rng, depth - 1)
+        while e in (G.P("unit"), ("wrap", "box", G.P("unit"))):
+            # sequences of zero-width elements: when an illegal or unframed pair makes the reader see a garbage
+            # count they spin (known finding F14); kept out of this stream as they are out of C05's
+            e = neutral_type(rng, depth - 1)
+        return ("seq", rng.choice(["vec", "ll"]), 0, e)
     if c < 0.5:
         return ("tup", [neutral_type(rng, 0) for _ in range(rng.choice([1, 2, 3]))])
     if c < 0.65:
@@ -158,6 +163,19 @@ def run_stream(harness, model, cases, wd):
         impl += [l for l in open(outp).read().splitlines() if l != "env"]
     if len(impl) != n:
         raise C.Undecided(f"C03: {len(impl)} results for {n} cases")
+    # strict correspondence of the two decoders on THE SAME BYTES: the implementation's own encoding (maps and sets
+    # in its iteration order) plus the suffix is given to the model's reader-version decoder
+    dcases, idx = [], []
+    for i, (c, il) in enumerate(zip(cases, impl)):
+        enc_part = il.partition(" ; ")[0]
+        if enc_part.startswith("ok "):
+            hx = enc_part.split(" ")[1]
+            hx = ("" if hx == "-" else hx) + ("" if c["sfx"] == "-" else c["sfx"])
+            dcases.append({"env": c["envR"], "cmd": "dec", "ty": c["wrap"], "hex": hx or "-"})
+            idx.append(i)
+    dm = C._run_codec_side(model, dcases, [C.codec_line(d) for d in dcases], wd, "model.dec", 16, 3000)
+    for i, m in zip(idx, dm):
+        cases[i]["model_dec"] = m
     return impl
 
 
